@@ -611,15 +611,17 @@ Fixpoint tfield_resolves (defs : list (bool * bytes)) (t : tfield) : bool :=
           forallb (tfield_resolves defs) fs
       end
   end.
+(* (the shape of [field_resolves], [closed], [fields_of] is relied upon by other families' proofs -
+   CmpbEntityProofs, J5sEntity, PipelineEntity: it stays as it is; the references inside tree-form inline
+   schemas are checked alongside, by [trees_closed]) *)
 Definition field_resolves (defs : list (bool * bytes)) (f : ofield) : bool :=
   ref_resolves defs (f_type f)
   && match f_inline f with
-     | Some il => match il_tree il with
-                  | [] => forallb (fun s => ref_resolves defs (otype_of_item (sf_kind s))) (il_fields il)
-                  | tfs => forallb (tfield_resolves defs) tfs
-                  end
+     | Some il => forallb (fun s => ref_resolves defs (otype_of_item (sf_kind s))) (il_fields il)
      | None => true
      end.
+Definition tree_of (f : ofield) : list tfield :=
+  match f_inline f with Some il => il_tree il | None => [] end.
 
 Definition fields_of (cs : list component) : list ofield :=
   flat_map (fun c => match c with
@@ -630,6 +632,7 @@ Definition fields_of (cs : list component) : list ofield :=
 Definition closed (cs : list component) : bool :=
   forallb (field_resolves (defined cs)) (fields_of cs).
 
+
 (* every user-declared field of the declaration *)
 Definition all_ufields (e : entity) : list ufield :=
   map k_def (e_keys e) ++ e_data e ++ flat_map ev_fields (e_events e)
@@ -638,6 +641,10 @@ Definition all_ufields (e : entity) : list ufield :=
   ++ flat_map s_fields (e_summaries e)
   ++ flat_map schema_fields (e_schemas e).
 Definition fields_ok (e : entity) : bool := forallb ufield_ok (all_ufields e).
+(* the references made anywhere inside the user's tree-form inline schemas resolve too (against what the
+   expansion defines: [defs]) *)
+Definition trees_ok (e : entity) (defs : list (bool * bytes)) : bool :=
+  forallb (fun u => forallb (tfield_resolves defs) (tree_of (of_ufield u))) (all_ufields e).
 
 (* visitServiceMethodNode: every ":name" part of the resolved path must be a request property *)
 Definition params_ok (req : list bytes) (resolved : bytes) : bool :=
@@ -666,7 +673,7 @@ Definition list_settings (e : entity) : bool :=
 (* the conversion outcome (j5convert) as far as the expansion decides it *)
 Definition convert (e : entity) : outcome (list component) :=
   match expand e with
-  | Ok cs => if closed cs then
+  | Ok cs => if closed cs && trees_ok e (defined cs) then
                if fields_ok e then
                  if query_params_ok e && command_params_ok e then
                    if list_settings e then Err "listRequest is not supported on a method" else Ok cs
